@@ -138,6 +138,35 @@ def register(reg, ctx):
                  ("parameters_stored", "self._pulse_energy == pulse_energy and self._stddev_x == stddev_x and self._stddev_y == stddev_y "
                   "and self._mean_z == mean_z")])
 
+    # Laser.laser_profile setter: afterwards the laser's configure_geometry IS registered on the new profile's notifier - the registration is
+    # made, and no later statement of the setter takes it off again (also when the new profile is the one already attached), and the
+    # geometry is rebuilt after the profile is stored
+    def profile_registration(P):
+        adds = P.calls('notifier.add'); rems = P.calls('notifier.remove')
+        out = [("registration.add", z3.BoolVal(len(adds) >= 1))]
+        if not adds:
+            return out
+        la = adds[-1]
+        from pyvc.values import BoundMethod as _BM
+        cb = la.args[0] if la.args else None
+        out.append(("registration.callback_is_configure_geometry", z3.BoolVal(bool(isinstance(cb, _BM) and cb.name == 'configure_geometry' and cb.obj.ref.eq(P.value("self").ref)))))
+        out.append(("registration.on_new_profile_notifier", as_bool(P.eng.identical(la.recv, P.value("value.notifier")))))
+        pos = P.st.log.index(la)
+        later = [e for e in rems if P.st.log.index(e) > pos]
+        out.append(("registration.not_removed_afterwards", z3.And(*[z3.Not(as_bool(P.eng.identical(e.recv, P.value("value.notifier")))) for e in later]) if later else z3.BoolVal(True)))
+        out.append(("registration.profile_stored", as_bool(P.eng.identical(P.value("self._laser_profile"), P.value("value")))))
+        cg = P.calls('configure_geometry')
+        out.append(("registration.geometry_rebuilt_last", z3.BoolVal(bool(cg) and P.st.log.index(cg[-1]) > pos)))
+        return out
+    reg.contract("cherab/core/laser/node.pyx", "Laser.laser_profile.setter", PROP, name='registration', sorts={"value": "ref:LaserProfile!"},
+        externals=dict(NOTIFY, **{'Laser.configure_geometry': logged_self('configure_geometry'),
+                                  '.add': {'kind': 'logged', 'result': 'none', 'label': 'notifier.add', 'doc': 'Notifier.add'},
+                                  '.remove': {'kind': 'logged', 'result': 'none', 'label': 'notifier.remove', 'doc': 'Notifier.remove'}}),
+        requires=["not is_none(value.notifier)", "implies(not is_none(self._laser_profile), not is_none(self._laser_profile.notifier))",
+                  # each profile owns its notifier
+                  "implies(not is_none(self._laser_profile) and not same(self._laser_profile, value), not same(self._laser_profile.notifier, value.notifier))"],
+        ensures=[("registered_on_new_profile", profile_registration)])
+
     # segmented cylinder
     CYL = {'Cylinder()': {'kind': 'logged', 'result': 'ref:Cylinder', 'alloc': True, 'label': 'Cylinder', 'doc': 'raysect Cylinder primitive'},
            'translate': {'kind': 'pure', 'result': 'ref:AffineMatrix3D', 'doc': 'raysect translate'}}
@@ -249,6 +278,20 @@ b = GaussianSpectrum(1000.0, 1100.0, 50, **dict(dict(mean=1050.0, stddev=5.0), *
 pa, pb = np.array(a.power_spectral_density), np.array(b.power_spectral_density)
 print(json.dumps({"max_abs_difference_of_binned_psd": float(np.abs(pa - pb).max()), "equal": bool(np.allclose(pa, pb))}))
 ''' % (which, 1060.0 if which == 'mean' else 8.0, which, 1060.0 if which == 'mean' else 8.0)
+    elif 'Laser.laser_profile' in o.name:
+        scen = '''
+from raysect.optical import World
+from cherab.core.laser import Laser
+from cherab.core.model.laser import UniformEnergyDensity
+def desc(laser):
+    return [(type(g).__name__, round(g.height, 9), round(g.radius, 9)) for g in laser.get_geometry()]
+w = World(); prof = UniformEnergyDensity(energy_density=1.0, laser_length=1.0, laser_radius=0.05)
+laser = Laser(parent=w); laser.laser_profile = prof; laser.laser_profile = prof
+prof.laser_length = 3.0; prof.laser_radius = 0.25
+w2 = World(); p2 = UniformEnergyDensity(energy_density=1.0, laser_length=3.0, laser_radius=0.25); l2 = Laser(parent=w2); l2.laser_profile = p2
+a, b = desc(laser), desc(l2)
+print(json.dumps({"segments_after_history": len(a), "segments_fresh_laser": len(b), "first_segment_after_history": a[:1], "first_segment_fresh": b[:1], "equal": a == b}))
+'''
     elif 'ConstantBivariateGaussian3D' in o.name or 'TrivariateGaussian3D' in o.name or 'GaussianBeamModel' in o.name:
         scen = '''
 from cherab.core.model.laser.math_functions import ConstantBivariateGaussian3D, TrivariateGaussian3D, GaussianBeamModel
